@@ -241,7 +241,8 @@ func (t *ImmutableTree) Iterate(fn func(key []byte, value []byte) bool) (bool, e
 			return true, nil
 		}
 	}
-	return false, nil
+	// the iterator also becomes invalid when a node or fast node cannot be read
+	return false, itr.Error()
 }
 
 // Iterator returns an iterator over the immutable tree.
